@@ -401,6 +401,50 @@ def r14_12(run, model):
     run.floor("whole-program linking functions examined", len(whole), 1)
 
 
+def r14_20(run, model):
+    run.rule("R14.20", "the dependency walk reads an edge list that every producer of a package unit fills: `link` orders the cores through the "
+                       "same topological sort as whole-program compilation, over units it builds itself (`PackageUnit { files: Vec::new(), imports }`); "
+                       "fields that some construction of the unit type leaves empty are computed from the struct literals of the pipeline, and "
+                       "the list `visit_package` recurses over is derived from none of them")
+    PK = "crates/compiler/src/pipeline/packages.rs"
+    f = model.fn("visit_package", PK)
+    EMPTY = re.compile(r"^(Vec::new\(\)|vec!\[\]|HashSet::new\(\)|HashMap::new\(\)|IndexMap::new\(\)|IndexSet::new\(\)|Default::default\(\)|\w+::default\(\))$")
+    sometimes_empty, cons = set(), 0
+    for rel in model.src_files():
+        if not rel.startswith("crates/compiler/src/pipeline/") and not rel.endswith("compiler/src/main.rs"):
+            continue
+        for g in model.fns(rel):
+            if g.body is None or g.test:
+                continue
+            for st in S.find(g.body, "Struct"):
+                if st["segs"][-1] != "PackageUnit":
+                    continue
+                cons += 1
+                for fl in st.get("fields", []):
+                    if EMPTY.match(S.norm_ws(run.facts.text(rel, fl["expr"]["sp"])).replace(" ", "")):
+                        sometimes_empty.add(fl["name"])
+    run.floor("constructions of PackageUnit in the pipelines", cons, 2)
+    # the loop that recurses
+    loops = [l for l in S.find(f.body, "For") if any(True for _ in S.calls(l["body"], f.name))]
+    if not loops:
+        raise AnalysisIncomplete("visit_package: no loop that recurses")
+    for loop in loops:
+        src = loop["iter"]
+        hops = 0
+        while src["k"] == "Path" and len(src["segs"]) == 1 and hops < 3:
+            inits = [l["init"] for l in S.find(f.body, "Local") if src["segs"][0] in S.pat_bindings(l["pat"]) and l.get("init") is not None]
+            if len(inits) != 1:
+                break
+            src = inits[0]
+            hops += 1
+        read = {x.get("member") for x in S.walk(src) if x["k"] == "Field"}
+        bad = sorted(read & sometimes_empty)
+        run.ob("R14.20", "visit_package|the edges come from a field every producer fills", bool(read) and not bad, site(PK, loop["sp"]),
+               f"edge list derived from field(s) {sorted(x for x in read if x)}; left empty by some construction: {sorted(sometimes_empty) or 'none'}",
+               witness="build Util, build Main, link: the units link builds have no files, a walk that reads imports off the files sees no edges and "
+                       "concatenates the cores alphabetically - Main is lifted before Util and a closure-returning import is stored in a func variable")
+
+
 def r14_14(run, model):
     run.rule("R14.14", "both pipelines make the same entry-point check: link_cores rejects a Main package without `main`, so the whole-program "
                        "function that links the package cores rejects it too (the back end emits `func main() { main0() }` unconditionally)")
@@ -739,6 +783,7 @@ def run(run, model):
     run.try_rule(c13.file_identity_order, model, "R14.11")
     run.try_rule(c13.file_identity_sort_key, model, "R14.11")
     run.try_rule(r14_1, model)
+    run.try_rule(r14_20, model)
     # a fact recomputed from a type when an artifact is read back (where whole-program compilation keeps the original) is computed by a
     # complete traversal (shared with C07 R07.2, restricted to the artifact layer)
     from rules import c07 as _c07
